@@ -7,6 +7,8 @@ import Driver.EngScan
 import Driver.EngWriter
 import Driver.EngRenumber
 import Driver.EngCnf
+import Driver.EngAiger
+import Driver.EngBtor2
 import Driver.EngStream
 
 open Driver
@@ -19,6 +21,8 @@ def runLine (line : String) : String × String :=
   | some "writer" => runWriterCase line
   | some "renumber" => runRenumberCase line
   | some "cnf" => runCnfCase line
+  | some "aiger" => runAigerCase line
+  | some "btor2" => runBtor2Case line
   | some "stream" => runStreamCase line
   | _ => ("unknown-engine", "")
 
